@@ -5,6 +5,7 @@
 import SV.Persist.Proofs
 import SV.FactsProofs.Batch
 import SV.Persist.ShardedProofs
+import SV.FactsProofs.Sync
 namespace SV.Props.C09
 open SV SV.Persist
 
@@ -38,5 +39,12 @@ theorem sharded_range_after_reopen (n maxBatch : Nat) (hn : 2 ≤ n) (hm : 1 ≤
     (((ops ++ [Op.reopen]).foldl Sharded.step (Sharded.init n maxBatch)).range.map (·.1)).Nodup ∧
     ∀ k, alookup k ((ops ++ [Op.reopen]).foldl Sharded.step (Sharded.init n maxBatch)).range
       = (ops.foldl specStep (fun _ => none)) k := sharded_run_range_reopen n maxBatch hn hm ops
+
+/-- (regenerated fact) at every flush — the one `Close` performs included — goleveldb is handed the batch's own record list
+    (the operations in the order they were acknowledged, values copied when they were put): what reopening finds is what the
+    model's `flush` wrote, not something reconstructed at flush time -/
+theorem every_flush_writes_the_record_list :
+    Facts.leveldbWriteArgs = ["DB.putBatch: dbBatch.batch", "putBatchAct.doPutRequest: p.batch.batch"] :=
+  Facts.writes_pass_the_record_list
 
 end SV.Props.C09
